@@ -102,6 +102,11 @@ pub const UNARY: &[&str] = &[
     "g := () -> any { return X; }; r := g()", "g := (k: any) -> any { return k; }; r := g(X)", "loop { X; break; }",
     "r := X && true", "r := true || X", "r := X[0:1][0]", "r := X.0 + 1", "r := X.a + 1", "r := X() + 1", "r := X(1) + 1",
     "r := X[0] + 1", "r := *X[0]", "r := X$+ + 1", "r := X$] + [1]", "r := (X~)() ", "r := mod { p := X }",
+    "r := match X { }", "match X { }", "r := match X { }; r", "m := mod { p := X; return p; q := 1; }; r := m",
+    "loop { m := mod { break; q := X; }; }", "loop { m := mod { q := X; continue; z := q; }; break; }",
+    "m := mod { if true { return X; } else { return X; }; q := 1; }", "r := { return X; q := 1; q }",
+    "r := mod { }", "r := mod { mod { p := X } }", "r := { { X } }", "r := if true { return X; } else { 1 }",
+    "r := [match X { => 1, }]", "r := (mod { p := X }).p", "for e in [X]~ { return e; }", "r := (X, X) == (X, X)",
 ];
 
 /// infix operators applied to two operands `X op Y`
